@@ -13,6 +13,11 @@ import time
 from concurrent.futures import ThreadPoolExecutor
 
 ROOT = os.path.dirname(os.path.dirname(os.path.abspath(__file__)))
+# Sensitivity runs against a scratch worktree (tools/eval_seed.py) set
+# MVF_REPO (put first on the import path) and MVF_OUT (evidence / replays go
+# there).  The registered commands set neither: they run /repo and write
+# /verif/evidence.
+OUT = os.environ.get('MVF_OUT') or ROOT
 PY = '/venv/bin/python'
 MAX_REPLAYS_PER_MECH = 3
 
@@ -78,7 +83,9 @@ def run_check(cid, tier='quick', seed=0, jobs=16, limit=None):
     for i, c in enumerate(cases):
         shards[i % nshards].append(c)
     env = dict(os.environ)
-    env['PYTHONPATH'] = ROOT + os.pathsep + env.get('PYTHONPATH', '')
+    env['PYTHONPATH'] = os.pathsep.join(
+        [p for p in (os.environ.get('MVF_REPO'), ROOT,
+                     env.get('PYTHONPATH', '')) if p])
     env.setdefault('PYTHONHASHSEED', '0')
     env['TMPDIR'] = scratch
     budget = getattr(mod, 'SHARD_TIMEOUT', {}).get(tier, 1500)
@@ -123,7 +130,10 @@ def finish(mod, cid, prop, tier, seed, cases, results, inconclusive, wall):
     samples = []
     violations = []
     extra = {}
+    code = set()
     for r in results:
+        if r.get('code'):
+            code.add(r['code'])
         evaluations += r.get('executions', 1)
         for k in r.get('keys') or ([] if r.get('key') is None
                                    else [r['key']]):
@@ -158,7 +168,7 @@ def finish(mod, cid, prop, tier, seed, cases, results, inconclusive, wall):
     known_seen = {}
     per_mech = {}
     case_by_n = {c['_n']: c for c in cases}
-    rdir = os.path.join(ROOT, 'replays', prop)
+    rdir = os.path.join(OUT, 'replays', prop)
     for v in violations:
         f = match_known(v, findings)
         if f is not None:
@@ -170,7 +180,7 @@ def finish(mod, cid, prop, tier, seed, cases, results, inconclusive, wall):
         if per_mech[mech] > MAX_REPLAYS_PER_MECH:
             continue
         vp = v.get('prop') or prop
-        d = os.path.join(ROOT, 'replays', vp)
+        d = os.path.join(OUT, 'replays', vp)
         os.makedirs(d, exist_ok=True)
         payload = {'check': cid, 'property': vp, 'violation': v,
                    'case': case_by_n.get(v.get('case_n')),
@@ -197,6 +207,7 @@ def finish(mod, cid, prop, tier, seed, cases, results, inconclusive, wall):
         'known_findings_seen': {k: v[1] for k, v in known_seen.items()},
         'inconclusive': inconclusive[:20],
         'exhaustive': bool(getattr(mod, 'EXHAUSTIVE', False)),
+        'code_under_test': sorted(code),
     }
     cov.update(extra)
     ev = {
@@ -205,8 +216,8 @@ def finish(mod, cid, prop, tier, seed, cases, results, inconclusive, wall):
         'assumptions': list(getattr(mod, 'ASSUMPTIONS', [])),
         'wall_s': round(wall, 1), 'violations': unknown,
     }
-    os.makedirs(os.path.join(ROOT, 'evidence'), exist_ok=True)
-    json.dump(ev, open(os.path.join(ROOT, 'evidence', '%s.json' % prop), 'w'),
+    os.makedirs(os.path.join(OUT, 'evidence'), exist_ok=True)
+    json.dump(ev, open(os.path.join(OUT, 'evidence', '%s.json' % prop), 'w'),
               indent=1, default=str)
     for l in lines:
         print(l)
